@@ -7,7 +7,20 @@ import os
 VERIF = os.path.dirname(os.path.dirname(os.path.abspath(__file__)))
 ALL = ["C%02d" % i for i in range(1, 15)]
 
+TV = "TLA+ model checking (TLC) + trace validation of the real code's executions against the TLA+ trace specification"
+TRUST = ("Exhaustive only inside the stated bounds; beyond them seeded sampling. Trusts TLC, the recording doubles of the harness "
+         "(harness/conf/src/rec.rs) and that the handlers of the generated interfaces behave as declared in spec/ifaces/*.json.")
+
 CLAIMS = {
+    "C01": dict(
+        category="model_checking",
+        text="TLC classifies every set of <=2 (thorough: 3) declarations from a pool covering depth 1..3, optional parts anywhere, short=long, "
+             "non-prefix short forms, digits/underscores, common commands, command+query on one node and all attribute combinations, and checks "
+             "that the macro-shaped trie resolves every spelled header and every near miss exactly as the abstract short/long spelling rule does "
+             "(MCScpiTree!TreeOk). A seeded sample of the collision-free sets is compiled through the real macro (sync and async handlers) and "
+             "every spelling and near miss (abbreviation between short and long, extra/missing/replaced level, wrong kind, three letter cases) "
+             "is run through Interface::run; each recorded outcome (one call, or no call and exactly one -113) is validated by TraceScpi.",
+        design_ref="DESIGN.md section 4 C01", note=TRUST, technique=TV),
     "C02": dict(
         category="model_checking",
         text="TLC checks exhaustively, for every history of <=2 messages x <=3 units over a 16-unit vocabulary (relative, absolute, "
@@ -16,10 +29,75 @@ CLAIMS = {
              "and that the path is the root after every terminator; every enumerated history and seeded long sessions are then executed "
              "on the real code (one run buffer, one run per message, process whole and byte-wise) and every recorded event is validated "
              "against the abstract relation by the trace specification TraceScpi under TLC.",
-        design_ref="DESIGN.md section 4 C02",
-        note="Exhaustive only inside the bounds; beyond them seeded sampling. Trusts TLC, the recording doubles of the harness and "
-             "that handlers of the generated `main` interface behave as declared in spec/ifaces/main.json.",
-        technique="TLA+ refinement check (TLC) + trace validation of the real code's executions against the TLA+ spec"),
+        design_ref="DESIGN.md section 4 C02", note=TRUST, technique=TV),
+    "C05": dict(
+        category="model_checking",
+        text="MCScpiProcess checks the offset invariant 0<=proc<=rd<=rend<=N and that a read is always offered space, for every chunking and "
+             "content within the bounds. Every byte string over the 18-symbol class alphabet up to L, seeded message sequences and seeded "
+             "random/mutated inputs over all byte values are run through run() with 7..23 writers (capacities 0..64, std, pass-through) and "
+             "through process::<N> for N in 1..32,47,64,128,1024 under whole/byte-wise/seeded schedules; TraceScpi's monitors reject any "
+             "panic, non-suffix remainder, empty read buffer or missing return, a watchdog catches calls that do not return.",
+        design_ref="DESIGN.md section 4 C05",
+        note=TRUST + " Coverage-guided fuzzing (named in the property's quantifier) is outside this technique family and not used.",
+        technique=TV),
+    "C06": dict(
+        category="model_checking",
+        text="TLC checks for every history over a vocabulary with all five fault kinds at every position that the implementation-shaped run "
+             "loop reports exactly one error per faulty unit, does not invoke its handler (unless the fault is the handler's own), executes "
+             "all-or-none of the following units and leaves later messages unaffected (Refines, HistoryIndep); all histories and seeded long "
+             "faulty sessions are executed as one run buffer and through process (single read, byte-wise, message-wise) and validated by TraceScpi.",
+        design_ref="DESIGN.md section 4 C06", note=TRUST, technique=TV),
+    "C07": dict(
+        category="model_checking",
+        text="MCScpiProcess: the implementation-shaped process loop runs in lock-step with the byte-at-a-time ideal for every chunk size "
+             "(0..free space) and content at every read (N<=6, stream<=8 thorough): same events, same carried-over tail and path. On the real "
+             "code every stream over a 9-symbol alphabet up to L is delivered under EVERY composition into reads and 4 buffer sizes, message "
+             "streams under seeded schedules (single bytes, empty reads, exact fill, suspended transport/handler futures); TraceScpi requires "
+             "identical calls/errors/response bytes for all schedules of a stream, equality with run-per-message when messages fit, and "
+             "acceptance by the stream semantics ProcAccepts.",
+        design_ref="DESIGN.md section 4 C07", note=TRUST, technique=TV),
+    "C08": dict(
+        category="model_checking",
+        text="MCScpiSyntax checks as an action property that inside string/block payloads no byte but the own closing quote / the last "
+             "counted byte leaves the payload and every byte is stored verbatim. Strings and blocks over separator/quote/newline/non-ASCII "
+             "alphabets (exhaustive to length L, seeded longer ones over all byte values) are placed at argument index 1..3 and unit index "
+             "1..2 of compound messages that continue with a relative header, run whole and through process under every split point; "
+             "TraceScpi requires verbatim delivery, no error, and the same units executed as without the embedded newline.",
+        design_ref="DESIGN.md section 4 C08", note=TRUST, technique=TV),
+    "C10": dict(
+        category="model_checking",
+        text="MCScpiProcess (with the EnvFail action) checks Answered (nothing owed and res_buf empty at every read) and DoneIsError. On the "
+             "real code each session is run fault-free and once per position of its read/write/flush call sequence with a unique error "
+             "injected there; TraceScpi requires: all responses of completed messages written and flushed before the next read, nothing but "
+             "responses written, process returns exactly the injected error with no further transport call, and the trace before the fault "
+             "equals the fault-free one.",
+        design_ref="DESIGN.md section 4 C10", note=TRUST, technique=TV),
+    "C11": dict(
+        category="model_checking",
+        text="MCScpiSyntax checks that each of the 32 white-space bytes is a no-op in every gap phase of the scanner and starts a gap "
+             "uniformly. On the real code base messages are re-rendered with each single gap x each white-space byte, all case and "
+             "short/long combinations, CR LF and seeded combinations; TraceScpi requires every variant to be accepted and to equal the base "
+             "on handlers, arguments, errors and output.",
+        design_ref="DESIGN.md section 4 C11", note=TRUST, technique=TV),
+    "C12": dict(
+        category="model_checking",
+        text="MCScpiSyntax drives the unit scanner one byte per action, so prefix/extension pairs are edges: VerdictFinal, ConsumesOne, "
+             "OnlineIsBatch, IncompleteOnlyInside are checked on every edge. Every string over five alphabets (header classes, decimal, "
+             "radix/block, string, parameter count around MAX_ARGS) up to L is printed with the pinned verdict (class, consumed length, "
+             "query/terminator flags, tokens, node and parent) from the root and three inner start nodes, and the real parser::parse is "
+             "compared on each (614k cases quick).",
+        design_ref="DESIGN.md section 4 C12", note=TRUST,
+        technique="TLA+ model checking (TLC) + replay of every TLC-enumerated input with its specified verdict into the real parser"),
+    "C14": dict(
+        category="model_checking",
+        text="MCScpiTree checks for every enumerated declaration set that macro-shaped trie insertion fails exactly when two handlers share "
+             "a spelling of the same kind (identical, short-equals-long, optional-induced, case-only), including that a declaration's own "
+             "coinciding expansions are not a collision. A seeded sample of ambiguous sets is put through the real macro in a generated crate "
+             "(every module must be rejected, matched by diagnostic line), and each one's collision-free twin plus a sample of unambiguous "
+             "sets must compile (and dispatch correctly).",
+        design_ref="DESIGN.md section 4 C14",
+        note=TRUST + " The observable is the compiler's exit status / diagnostics; TLC decides which sets must and must not build.",
+        technique="TLA+ model checking (TLC) of the insertion/ambiguity equivalence + compile outcome of TLC-selected sets through the real macro"),
 }
 
 NOT_YET = "check not built yet (work in progress)"
